@@ -9,6 +9,7 @@ import hashlib
 import json
 import os
 import random
+import re
 import shutil
 import signal
 import subprocess
@@ -339,6 +340,14 @@ class Result:
 
 
 _RUN_COUNTER = [0]
+FINGERPRINTS = None     # when a list: every execute() appends (stdout sha, rc, normalised trace sha, tmp_left count)
+_TMPNAME = re.compile(r"s4-[A-Za-z0-9_]{6}")
+
+
+def fingerprint(res):
+    t = "\n".join(res.trace.lines) if res.trace is not None else ""
+    t = _TMPNAME.sub("s4-*", t)
+    return (hashlib.sha256(res.stdout).hexdigest()[:16], res.rc, hashlib.sha256(t.encode()).hexdigest()[:16], len(res.tmp_left))
 
 
 def materialise(scn, wd):
@@ -426,6 +435,8 @@ def execute(scn, plan, keep=False, wall_cap=30.0, binary=None, want_trace=True):
                 res.trace = Trace("")
         res.tmp_left = sorted(os.listdir(os.path.join(wd, "tmp")))
         res.workdir = wd
+        if FINGERPRINTS is not None and not res.timed_out:
+            FINGERPRINTS.append(fingerprint(res))
         return res
     finally:
         if not keep:
